@@ -290,7 +290,10 @@ def decode_list(fmt, gsep, out, gsize=0):
         if i < len(toks):
             sep = toks[i]
             i += 1
-        if ntype in "AaIi":
+        if ntype in "Ii" and pos < len(body) and body[pos].isdigit():
+            # 0 and the values without a roman numeral (above 3999) are written in decimal
+            cls = lambda c: c.isdigit()
+        elif ntype in "AaIi":
             cls = (lambda c: "A" <= c <= "Z") if ntype in "AI" else (lambda c: "a" <= c <= "z")
         else:
             cls = lambda c: c.isdigit() or (gsep is not None and c == gsep)
@@ -303,8 +306,10 @@ def decode_list(fmt, gsep, out, gsize=0):
         if ntype in "Aa":
             nums.append(dec_alpha(run.upper()))
         elif ntype in "Ii":
-            if run == "0":
-                nums.append(0)
+            if run.isdigit():
+                if 1 <= int(run) <= 3999 or (len(run) > 1 and run[0] == "0"):
+                    raise ValueError("decimal numeral %r where a roman numeral exists" % run)
+                nums.append(int(run))
             else:
                 if any(c not in ROMAN for c in run.upper()):
                     raise ValueError("not roman: %r" % run)
@@ -461,7 +466,7 @@ def gen_value_cases(ctx, n_random):
     for v in bv:
         for f in ("A", "a", "1"):
             items.append((v, f, None, 0))
-        if v <= 5000:
+        if v <= 5000 or v in (9999, 10000, 1234567, 2 ** 32, 2 ** 53, 2 ** 64 - 2048):
             for f in ("I", "i"):
                 items.append((v, f, None, 0))
     for v in bv:
